@@ -94,17 +94,45 @@ class Gen:
         ctx = {"pa": "PA", "pb": "PB", "pl": [f"e{k}" for k in range(ch.draw(4, "len_pl"))],
                "pn": ["a", "b"][: 1 + ch.draw(2, "len_pn")], "pt": True, "pf": False}
         self.local_budget = share + 2
-        page = self.nodes(page_scope, owner=None, depth=0, top=True)
-        if not any(n_[0] == "comp" for n_ in page):
-            page.append(self.comp_node(page_scope, None, 0, in_fill=False))
-        return {"mode": mode, "comps": self.comps, "page": page, "ctx": ctx,
+        py_entry = bool(P.get("py_entry")) and ch.chance(1, P["py_entry"], "py_entry")
+        if py_entry:
+            page = [self.py_entry_node()]
+        else:
+            page = self.nodes(page_scope, owner=None, depth=0, top=True)
+            if not any(n_[0] == "comp" for n_ in page):
+                page.append(self.comp_node(page_scope, None, 0, in_fill=False))
+        return {"mode": mode, "comps": self.comps, "page": page, "ctx": ctx, "py_entry": py_entry,
                 "features": sorted(f for f, v in self.feats.items() if v)}
+
+    def py_entry_node(self):
+        """A page that is one component tag with literal kwargs and text-only fills: it can also be rendered
+        through Component.render(kwargs=..., slots=...) (C01's third entry variant)."""
+        ch = self.ch
+        j = ch.draw(len(self.comps), "py_callee")
+        cd = self.comps[j]
+        kwargs = [["s", ["lit", self.tok().upper()]]] if ch.chance(1, 2, "py_kw") else []
+        names = []
+        for s_ in cd["slots"]:
+            if s_[0] not in names:
+                names.append(s_[0])
+        pool = list(names)
+        if cd["default_slot"] is not None and ch.chance(1, 2, "py_default"):
+            pool = [n for n in pool if n != cd["default_slot"]] + ["default"]
+        if ch.chance(1, 4, "py_unused"):
+            pool.append("zz")
+        required = [s_[0] for s_ in cd["slots"] if s_[2]]
+        chosen = [n for n in pool if n in required or ch.chance(2, 3, "py_fill?")]
+        fills = [["fill", ["lit", n], None, None, [["text", self.tok()]]] for n in chosen]
+        if not fills:
+            return ["comp", cd["name"], kwargs, False, "none", [], False]
+        return ["comp", cd["name"], kwargs, False, "fills", fills, False]
 
     def compdef(self, i, share):
         ch = self.ch
         name = f"c{i}"
         cd = {
             "name": name,
+            "label": f"L{i}",
             "cls": None,
             "slots": [],
             "default_slot": None,
